@@ -1,10 +1,114 @@
 import DFV.JsonField
+import DFV.Model.C19
 namespace DFV.Drv
-open Lean DFV
+open Lean DFV DFV.C19
 
-/-- driver ops of property C19 (stub: no ops yet) -/
+namespace C19J
+
+def methodOf (s : String) : Method :=
+  if s = "continuous" then .continuous else if s = "berg-luescher" then .bergLuescher else .other
+
+def triJ (t : Tri) : Json := ratsJ [t.d12, t.d23, t.d31, t.t]
+
+def leafJ : Leaf → List Json
+  | .asinh a b => [.str "s", ratToJson a, ratToJson b]
+  | .atan a b c => [.str "t", ratToJson a, ratToJson b, ratToJson c]
+  | .sqrt a => [.str "q", ratToJson a]
+
+def termJ (t : C19.Term) : Json := .arr (ratToJson t.coef :: leafJ t.leaf).toArray
+
+/-- add a term to an association list keyed by the leaf (JSON compaction only: terms with
+the same leaf are merged by adding their coefficients) -/
+def addTerm (t : C19.Term) : List C19.Term → List C19.Term
+  | [] => [t]
+  | u :: r => if u.leaf = t.leaf then ⟨u.coef + t.coef, u.leaf⟩ :: r else u :: addTerm t r
+
+def compact (ts : List C19.Term) : List C19.Term :=
+  (ts.foldl (fun acc t => if t.coef = 0 then acc else addTerm t acc) []).filter fun t => t.coef ≠ 0
+
+def optRatJ : Option Rat → Json
+  | none => .null
+  | some q => ratToJson q
+
+def bpJ (r : BpResult) : Json :=
+  Json.mkObj [("fint", ratsJ r.fint), ("number", intsJ r.number), ("total", .num (JsonNumber.fromInt r.total)),
+    ("hh", .num (JsonNumber.fromInt r.hh)), ("tt", .num (JsonNumber.fromInt r.tt)),
+    ("pattern", listJ (fun (p : Int × Nat) => Json.arr #[.num (JsonNumber.fromInt p.1), .num (JsonNumber.fromNat p.2)]) r.pattern)]
+
+end C19J
+open C19J
+
+/-- driver ops of property C19.  Leaf functions: `sq = ratSqrt`; `acos`, `deg`, `Ω`,
+`asinh`, `atan`, `sqrt` of the tensor are NOT evaluated here — the ops return the algebraic
+arguments (clipped dot products, triangle invariants, symbolic term lists). -/
 def c19 (op : String) (j : Json) : Option (R Json) :=
   match op with
+  | "orientation" => some do
+      let f ← fldOfJson (← fld j "field")
+      pure (Json.mkObj [("ok", fldToJson (orientation ratSqrt f))])
+  | "tcd" => some do
+      let f ← fldOfJson (← fld j "field")
+      let pi ← ratOfJson (← fld j "pi")
+      let ms ← strOfJson (← fld j "method")
+      match methodOf ms with
+      | .bergLuescher =>
+        -- the model's density with the leaf Ω left symbolic: per cell validity + triangles
+        match tcdBL ratSqrt (fun _ => 0) f with
+        | .error e => pure (errJ e)
+        | .ok q =>
+          let o := orientation ratSqrt f
+          let cells := (indicesC f.data.shape).map fun i =>
+            Json.mkObj [("valid", .bool (o.valid.get [i.getD 0 0, i.getD 1 0])),
+              ("tris", listJ triJ (triangles o (i.getD 0 0) (i.getD 1 0)))]
+          pure (Json.mkObj [("ok", Json.mkObj [("cells", .arr cells.toArray), ("area", ratToJson (triArea o.mesh)),
+            ("dV", ratToJson (ratProd q.mesh.cell)), ("mesh", meshToJson q.mesh), ("valid", boolsJ q.valid.toList)])])
+      | m =>
+        match tcd ratSqrt pi (fun _ => 0) f m with
+        | .error e => pure (errJ e)
+        | .ok q => pure (Json.mkObj [("ok", fldToJson q), ("charge", ratToJson (integrateAll false q)),
+            ("abs_charge", ratToJson (integrateAll true q))])
+  | "emergent" => some do
+      let f ← fldOfJson (← fld j "field")
+      pure (resJ fldToJson (emergent f))
+  | "angle" => some do
+      let f ← fldOfJson (← fld j "field")
+      let dir ← strOfJson (← fld j "dir")
+      let units ← strOfJson (← fld j "units")
+      -- leaves left as identities: the data are the clipped dot products
+      pure (resJ fldToJson (neighbourAngle ratSqrt id id f dir units))
+  | "max_angle" => some do
+      let f ← fldOfJson (← fld j "field")
+      let units ← strOfJson (← fld j "units")
+      match maxNeighbourAngle ratSqrt id id f units with
+      | .error e => pure (errJ e)
+      | .ok g =>
+        pure (Json.mkObj [("ok", Json.mkObj [("mesh", meshToJson g.mesh),
+          ("dots", listJ (fun i => listJ optRatJ (nbDots ratSqrt f i)) (indicesC f.mesh.n))])])
+  | "count_bps" => some do
+      let f ← fldOfJson (← fld j "field")
+      let dir ← strOfJson (← fld j "dir")
+      let pi ← ratOfJson (← fld j "pi")
+      pure (resJ bpJ (countBps ratSqrt pi f dir))
+  | "demag_cells" => some do
+      let m ← meshOfJson (← fld j "mesh")
+      let pi ← ratOfJson (← fld j "pi")
+      let fb ← boolOfJson (← fld j "field_based")
+      let cells ← listOf (listOf natOfJson) (← fld j "cells")
+      match demagTensor fb pi m with
+      | .error e => pure (errJ e)
+      | .ok (tm, g) =>
+        pure (Json.mkObj [("ok", Json.mkObj [("mesh", meshToJson tm),
+          ("cells", listJ (fun c => listJ (fun ts => listJ termJ (compact ts)) (g c)) cells)])])
+  | "demag_field" => some do
+      let f ← fldOfJson (← fld j "field")
+      let tj ← fld j "tensor"
+      let shape ← nats tj "shape"
+      let cells ← listOf (listOf ratOfJson) (← fld tj "data")
+      if cells.length ≠ natProd shape then throw "tensor data length"
+      pure (resJ fldToJson (demagField (NDA.ofList shape cells []) f))
+  | "sqrt" => some do
+      let q ← ratOfJson (← fld j "q")
+      pure (Json.mkObj [("ok", ratToJson (ratSqrt q))])
   | _ => none
 
 end DFV.Drv
